@@ -44,6 +44,23 @@ func zzAsyncRecorder(ctx context.Context) {
 func zzC06Recorder(ctx context.Context, method string, req Request) (Result, error) {
 	zzC06.inMethod = true
 	zzC06.reached = append(zzC06.reached, method)
+	if method == methodSubscriptionsListen {
+		// C05: from the moment any code of the method layer (middleware, user callbacks, the handler that will park)
+		// runs for a listen call, Close must be able to find and cancel it — otherwise a Close landing in that
+		// window waits for a handler nobody cancels
+		id, _ := ctx.Value(idContextKey{}).(jsonrpc.ID)
+		ss, _ := req.GetSession().(*ServerSession)
+		tracked := false
+		if ss != nil {
+			for _, l := range ss.listenIDs {
+				if l == id {
+					tracked = true
+				}
+			}
+		}
+		vAssert(ss != nil && id.IsValid() && tracked, "C05.listen-call-tracked-before-the-method-layer-runs")
+		vReach("listen-tracked")
+	}
 	switch method {
 	case methodInitialize, notificationInitialized, methodPing:
 		return defaultReceivingMethodHandler[*ServerSession](ctx, method, req)
